@@ -313,7 +313,7 @@ class C14(World):
                                  f"{where}: a profile request was sent although profile lookup was to be skipped")
             else:
                 n_main += 1
-                if op.mode == "normal" and not inst.asked_profile:
+                if op.mode == "normal" and not inst.asked_profile and not self.asked_before(inst, c):
                     # the advertised URL can only be known from the institution: a client instance that sends
                     # credentials without ever having asked for the profile is using hearsay (a disk cache of
                     # unknown age written by some earlier process)
@@ -356,6 +356,19 @@ class C14(World):
                              f"{op.id}: {op.kind} sent its request {n_main} times (ok={op.ok}); exactly one POST expected")
             if n_prof > 1:
                 self.violate("C14", "I2-count", "profile", f"{op.id}: {n_prof} profile requests for one operation")
+
+    def asked_before(self, inst, conn):
+        """did another operation on this instance (still running, so not judged yet: two tasks may share one
+        instance) put a profile request on the wire before this connection was opened?"""
+        mine = {o.id for o in self.ops if o.inst is inst}
+        for c in self.net.conns:
+            if c.id >= conn.id or c.op not in mine or not c.raw_out:
+                continue
+            rq = simnet.HttpRequest(c.raw_out) if c.request is None else c.request
+            info = self.classify_body(rq.body)
+            if info["ok"] and "PROFMSGSRQV1" in info["kinds"]:
+                return True
+        return False
 
     def judge_cookies(self, c, rq, inst, where):
         sent = []
